@@ -34,3 +34,6 @@ pub use script_helpers::verif_script_helpers;
 
 #[cfg(nextest_verif)]
 pub use executor::verif_executor;
+
+#[cfg(all(nextest_verif, unix))]
+pub use dispatcher::verif_dispatcher;
